@@ -79,6 +79,13 @@ func SwitchTable(w *World, repo string, s Switches, rng *rand.Rand, tag string) 
 		{"blob-upload-session", Req{Method: "POST", URL: "/v2/" + repo + "/blobs/uploads/"}, canPush, true},
 		{"manifest-put", Req{Method: "PUT", URL: "/v2/" + repo + "/manifests/swtag", H: map[string]string{"Content-Type": MTImage}, Body: img.Raw}, canPush, true},
 	}
+	// the rarely used forms of the push API: a mount (of content the source holds, and of content nobody holds - which
+	// falls back to an ordinary session when pushing is allowed) and a chunk for a session that does not exist
+	absent := DigestOf("sha256", []byte("absent "+tag))
+	if plainBlob != "" {
+		p = append(p, SwitchProbe{"blob-mount", Req{Method: "POST", URL: "/v2/" + repo + "/mnt" + "/blobs/uploads/?mount=" + plainBlob + "&from=" + repo}, canPush, true})
+	}
+	p = append(p, SwitchProbe{"blob-mount-unknown", Req{Method: "POST", URL: "/v2/" + repo + "/mnu" + "/blobs/uploads/?mount=" + absent + "&from=" + repo}, canPush, true})
 	if tagged != "" {
 		p = append(p, SwitchProbe{"manifest-get-tag", Req{Method: "GET", URL: "/v2/" + repo + "/manifests/" + tagged, H: map[string]string{"Accept": AcceptAll}}, true, false})
 	}
